@@ -38,6 +38,17 @@ func vIndexes(n, code int, ascending bool) []int32 {
 	return idx
 }
 
+// vBEPre: some other code in the process builds big-endian encoders for the element types
+// (parameter bepre=1), after the arrays were built and before NewEmpty is asked for a decoder.
+func vBEPre() {
+	if vParamDef("bepre", 0) == 1 {
+		encode.NewTypeEncoderEndian(uint16(0), binary.BigEndian)
+		encode.NewTypeEncoderEndian(uint32(0), binary.BigEndian)
+		encode.NewTypeEncoderEndian(vLevel(0), binary.BigEndian)
+		encode.NewTypeEncoderEndian(vPadElt{}, binary.BigEndian)
+	}
+}
+
 func H_arr_map() {
 	typ := vParam("type")
 	n := vParam("n")
@@ -56,13 +67,6 @@ func H_arr_map() {
 	has := false
 	for i := 0; i < n; i++ {
 		has = vOr(has, idx[i] == probe)
-	}
-	if vParamDef("bepre", 0) == 1 {
-		// some other code in the process built big-endian encoders for the element types first
-		encode.NewTypeEncoderEndian(uint16(0), binary.BigEndian)
-		encode.NewTypeEncoderEndian(uint32(0), binary.BigEndian)
-		encode.NewTypeEncoderEndian(vLevel(0), binary.BigEndian)
-		encode.NewTypeEncoderEndian(vPadElt{}, binary.BigEndian)
 	}
 	switch typ {
 	case 0:
@@ -122,6 +126,7 @@ func H_arr_map() {
 				vAssert(good, "C16.generic.raw.value")
 			}
 			// ... and into a generic array made by NewEmpty for the element type: decoded elements
+			vBEPre()
 			g2, e4 := NewEmpty(uint32(0))
 			vAssert(e4 == nil && g2 != nil, "C16.newempty-ok")
 			if e4 == nil {
@@ -249,6 +254,7 @@ func H_arr_map() {
 		}
 		if loaded == 1 {
 			bs, e1 := proto.Marshal(g)
+			vBEPre()
 			g2, e0 := NewEmpty(vPadElt{})
 			vAssert(e0 == nil && g2 != nil, "C16.newempty-ok")
 			if e0 != nil {
@@ -289,6 +295,7 @@ func H_arr_map() {
 		}
 		if loaded == 1 {
 			bs, e1 := proto.Marshal(g)
+			vBEPre()
 			g2, e0 := NewEmpty(vLevel(0))
 			vAssert(e0 == nil && g2 != nil, "C16.newempty-ok")
 			if e0 != nil {
